@@ -52,7 +52,7 @@ Proof. exact StInstanceProofs.parse_fb_fuel. Qed.
 Theorem C04_declaration_parser_fuel : forall w00 fb w0 nm (bl : list (DeclProofs.swb token)) w1 (l : StStmtProofs.sl token) w2 en w3,
   StExprProofs.all_triv token StInstance.tok_class w00 -> t_kind fb = KFunctionBlock ->
   StExprProofs.all_triv token StInstance.tok_class w0 -> t_kind nm = KIdentifier ->
-  Forall (DeclProofs.wf_wb token StInstance.tok_class) bl ->
+  Forall (DeclProofs.wf_wb token StInstance.tok_class t_text StInstance.tok_num) bl ->
   StExprProofs.all_triv token StInstance.tok_class w1 ->
   StStmtProofs.wf_l token StInstance.tok_class t_text StInstance.tok_num StInstance.op_level true l ->
   StExprProofs.all_triv token StInstance.tok_class w2 -> t_kind en = KEndFunctionBlock ->
